@@ -377,7 +377,7 @@ theorem flush_step_mock {fx : Fixes} (hfx : fx.hiddenRoot = true) {s s' : MSt} (
       rw [hc, applyAllMock_append]
       exact doRestore_spec_mock hi'.good.wf fx (.inl hfx) hd hr0 (by rw [hrr]) (by rw [hrr])
         (by rw [hrr]; exact Int.le_refl _) (by rw [hrr]; exact Int.le_refl _) _
-  exact ⟨⟨⟨hi'.good, hi'.queue, .inr hmatch⟩, hfit⟩, hmatch⟩
+  exact ⟨⟨⟨hi'.good, hi'.queue, hi'.qlater, .inr hmatch⟩, hfit⟩, hmatch⟩
 
 /-- Every operation of a history on the mock terminal keeps the invariant (source with the three repairs). -/
 theorem step_mock {fx : Fixes} (hfx1 : fx.hiddenRoot = true) (hfx2 : fx.chainRestore = true)
@@ -391,7 +391,7 @@ theorem step_mock {fx : Fixes} (hfx1 : fx.hiddenRoot = true) (hfx2 : fx.chainRes
     refine ⟨?_, rootRect_termResize hi.hinv.good hx⟩
     have hk := termResize_keeps hi.hinv.good hlc.1 hlc.2 hx
     exact ⟨termResize_good hi.hinv.good hlc.1 hlc.2 hx, fun q hq => hi.hinv.queue q (hk.2.2.2 q hq),
-      .inl (termResize_pending hfx3 hi.hinv.good hlc.1 hlc.2 hx)⟩
+      qlater_keeps hi.hinv hk, .inl (termResize_pending hfx3 hi.hinv.good hlc.1 hlc.2 hx)⟩
   · by_cases hf : op = .flush
     · subst hf; exact (flush_step_mock hfx1 hi hs).1
     · have hp : op.plain := by
@@ -444,7 +444,7 @@ theorem runOpsMock_append (fx : Fixes) : ∀ (a b : List Op) (s s' : MSt), runOp
 theorem minv_newRoot (l c : Int) (hl : 0 < l) (hc : 0 < c) : MInv { tree := newRoot l c, lines := l, cols := c } := by
   refine ⟨?_, rfl⟩
   have h := hinv_newRoot l c hl hc
-  exact ⟨h.good, h.queue, .inl (by
+  exact ⟨h.good, h.queue, h.qlater, .inl (by
     rcases h.sync with hp | hm
     · exact hp
     · -- the fresh tree has its first flush pending whatever the terminal shows
